@@ -208,6 +208,19 @@ class Parser:
             e = ("call", name, e, args)
         return e
 
+    def path_call(self, name):
+        """`Self::name(receiver, args..)` is the method call `receiver.name(args..)`"""
+        self.eat("op", "(")
+        args = []
+        while not self.at(")"):
+            args.append(self.expr())
+            if self.at(","):
+                self.eat()
+        self.eat("op", ")")
+        if not args:
+            raise Unsupported("path call without receiver")
+        return ("call", name, args[0], args[1:])
+
     def primary(self):
         k, v = self.peek()
         if k == "num":
@@ -243,8 +256,15 @@ class Parser:
                 c = self.eat("id")[1]
                 if c in ("MAX", "MIN"):
                     return ("const", "U", c)
+                if self.at("("):
+                    return self.path_call(c)
                 raise Unsupported("Self::" + c)
             return ("var", v)
+        if k == "op" and v == "<" and self.peek(1) == ("id", "Self") and self.peek(2) == ("op", ">") and self.peek(3) == ("op", "::"):
+            # `<Self>::method(receiver, args..)`
+            for _ in range(4):
+                self.eat()
+            return self.path_call(self.eat("id")[1])
         raise Unsupported("unexpected token %s %s" % (k, v))
 
 
